@@ -40,6 +40,7 @@ def main():
                     choices=['quick', 'thorough'])
     ap.add_argument('--replay')
     ap.add_argument('--scenario')
+    ap.add_argument('--mkreplay', help='execute --scenario and store the first violation as a replay file at this path')
     a = ap.parse_args()
 
     from dsim import lib, runner
@@ -62,6 +63,18 @@ def main():
             scn = scn['scenario']
 
         out = runner.run_scenario(scn)
+
+        if a.mkreplay and out.violations:
+            v = out.violations[0]
+            rf = {'property': scn['property'],
+                  'signature': {'oracle': v['oracle'], 'detail': v['detail']},
+                  'violation': v, 'scenario': scn, 'digest': out.digest,
+                  'tree_sha256': lib.tree_sha256()}
+
+            with open(a.mkreplay, 'w') as fp:
+                json.dump(rf, fp, indent=1, sort_keys=True)
+                fp.write('\n')
+
         print(json.dumps({'violations': out.violations,
                           'probes': out.probes, 'faults': out.faults,
                           'digest': out.digest,
